@@ -93,55 +93,57 @@ def check(run):
     run.need(posf is not None, "update never writes the position field")
     P0 = ("field0", posf)
     problems = 0
+    from .algebra import arms
+    from .boolalg import literal
     for p in ps:
-        facts = list(p.guards)
-        gtxt = " & ".join(ir.show_nl(g) for g in p.guards) or "always"
         st = [e for e in p.events if isinstance(e, ir.SubStore) and e.cont == B]
+        gtxt0 = " & ".join(ir.show_nl(g) for g in p.guards) or "always"
         if len(st) != 1:
             problems += 1
-            run.fail("RING", "store-once", f"{s.path}:{s.fn.lineno}", fq, f"{len(st)} buffer stores [{gtxt}]",
-                     f"[{gtxt}] update must store the value exactly once, this path stores {len(st)} times")
+            run.fail("RING", "store-once", f"{s.path}:{s.fn.lineno}", fq, f"{len(st)} buffer stores [{gtxt0}]",
+                     f"[{gtxt0}] update must store the value exactly once, this path stores {len(st)} times")
             continue
-        w = ir.assume(st[0].key, facts)
-        val = ir.assume(st[0].value, facts)
-        if val != v:
-            problems += 1
-            run.fail("RING", "value", f"{s.path}:{st[0].line}", fq, f"stored value {ir.show_nl(val)}",
-                     f"[{gtxt}] the supplied value must be stored unchanged; {ir.show_nl(val)} is stored "
-                     f"(e.g. a zero would be replaced)")
-        p1 = P0
+        p1_raw = P0
         for e in p.events:
             if isinstance(e, ir.Store) and e.field == posf:
-                p1 = ir.assume(e.value, facts)
-        modw = ("op", "%", P0, K)
-        from .boolalg import literal
-        below = literal(("cmp", "<", P0, K))
-        lits = [literal(g) for g in p.guards]
-        lt = below in lits
-        ge = (below[0], not below[1]) in lits or literal(("cmp", "==", P0, K)) in lits
-        if w == P0 and lt:
-            slot = "pos (pos < k)"
-            adv = _same(p1, ("op", "+", w, ("const", 1)))
-        elif const_value(w) == 0 and ge:
-            slot = "0 (pos >= k)"
-            adv = _same(p1, ("const", 1))
-        elif w == modw:
-            slot = "pos % k"
-            adv = _same(p1, ("op", "+", P0, ("const", 1))) or _same(p1, ("op", "+", w, ("const", 1))) or \
-                p1 == ("op", "%", ("op", "+", P0, ("const", 1)), K)
-        else:
-            problems += 1
-            why = "slot 0 is written although the position has not reached k" if const_value(w) == 0 else \
-                  "the slot is not bounded by a dominating `pos < k` test"
-            run.fail("RING", "slot", f"{s.path}:{st[0].line}", fq, f"slot {ir.show_nl(w)} under [{gtxt}]",
-                     f"[{gtxt}] value is written to slot {ir.show_nl(w)}: {why}")
-            continue
-        if not adv:
-            problems += 1
-            run.fail("RING", "advance", f"{s.path}:{st[0].line}", fq,
-                     f"slot {ir.show_nl(w)} then position {ir.show_nl(p1)} [{gtxt}]",
-                     f"[{gtxt}] after writing slot {ir.show_nl(w)} the write position becomes {ir.show_nl(p1)}; it must "
-                     f"be one past the slot just written, otherwise the next value lands on the wrong slot")
+                p1_raw = e.value
+        # conditional expressions inside the index / position terms are further case splits of this path
+        for facts2, tup in arms(("tuple", (st[0].key, st[0].value, p1_raw))):
+            facts = list(p.guards) + list(facts2)
+            if any(ir.negate(f) in facts for f in facts):
+                continue
+            gtxt = " & ".join(ir.show_nl(g) for g in facts) or "always"
+            w, val, p1 = (ir.assume(x, facts) for x in tup[1])
+            if val != v:
+                problems += 1
+                run.fail("RING", "value", f"{s.path}:{st[0].line}", fq, f"stored value {ir.show_nl(val)}",
+                         f"[{gtxt}] the supplied value must be stored unchanged; {ir.show_nl(val)} is stored "
+                         f"(e.g. a zero would be replaced)")
+            modw = ("op", "%", P0, K)
+            below = literal(("cmp", "<", P0, K))
+            lits = [literal(g) for g in facts]
+            lt = below in lits
+            ge = (below[0], not below[1]) in lits or literal(("cmp", "==", P0, K)) in lits
+            if w == P0 and lt:
+                adv = _same(p1, ("op", "+", w, ("const", 1)))
+            elif const_value(w) == 0 and ge:
+                adv = _same(p1, ("const", 1))
+            elif w == modw:
+                adv = _same(p1, ("op", "+", P0, ("const", 1))) or _same(p1, ("op", "+", w, ("const", 1))) or \
+                    p1 == ("op", "%", ("op", "+", P0, ("const", 1)), K)
+            else:
+                problems += 1
+                why = "slot 0 is written although the position has not reached k" if const_value(w) == 0 else \
+                      "the slot is not bounded by a dominating `pos < k` test"
+                run.fail("RING", "slot", f"{s.path}:{st[0].line}", fq, f"slot {ir.show_nl(w)} under [{gtxt}]",
+                         f"[{gtxt}] value is written to slot {ir.show_nl(w)}: {why}")
+                continue
+            if not adv:
+                problems += 1
+                run.fail("RING", "advance", f"{s.path}:{st[0].line}", fq,
+                         f"slot {ir.show_nl(w)} then position {ir.show_nl(p1)} [{gtxt}]",
+                         f"[{gtxt}] after writing slot {ir.show_nl(w)} the write position becomes {ir.show_nl(p1)}; it must "
+                         f"be one past the slot just written, otherwise the next value lands on the wrong slot")
     if not problems:
         run.ok("RING", "update", f"{len(ps)} paths: one store of the value, slot in [0,k), position = slot + 1")
     # ---- getters -------------------------------------------------------------------------------------
@@ -191,7 +193,10 @@ def _nan_buffer(t, k):
             lst, n = (a[2], a[3]) if a[2][0] == "new" else (a[3], a[2])
             return lst[0] == "new" and lst[2] == "list" and len(lst[3]) == 1 and is_nan(lst[3][0]) and n == k
     if t[0] == "fn" and t[1] == "full" and len(t[2]) >= 2:
-        return t[2][0] == k and is_nan(t[2][1])
+        n = t[2][0]
+        while (n[0] == "fn" and n[1] == "int" and len(n[2]) == 1) or (n[0] == "res" and n[2] == "operator.index" and len(n[3]) == 1):
+            n = n[2][0] if n[0] == "fn" else n[3][0]
+        return n in (k, ("field0", "k")) and is_nan(t[2][1])
     return False
 
 
